@@ -9,7 +9,8 @@
      get     GET /uri/CAP(o)/path..[?t=json]: code (0 = the request never completed), msg (for a 403: the text/plain
              body or the <p> of the error page), body_ok (a file's contents came back intact), names (t=json listing)
      api     client.create_node_from_uri(cap of o): proh (ProhibitedNode?), isdir, read ("ok" | exception name), msg
-   Every access first lets the gateway re-read the file by the mtime rule (BlRefresh). *)
+   Every access first lets the gateway re-read the file by the mtime rule (BlRefresh).
+   (Clause names stay short: TLC wraps printed tuples beyond 80 columns and the framework reads one-line tuples.) *)
 EXTENDS BlacklistFile, Json, IOUtils, TLCExt, TLC
 
 Traces == JsonDeserialize(IOEnv.TRACE_FILE)
@@ -26,7 +27,7 @@ GetVerdict(e, E) ==
   LET x == WebGet(G, E, e.o, e.path, e.t)
       w == Walk(G, Prohibited(E), e.o, e.path, 1) IN
   IF x.code = 200 /\ x.served = "listing" /\ e.code = 0 /\ HasProhibitedMutableChild(G, E, w.obj)
-    THEN "BW_listing_never_answered_with_prohibited_mutable_child"
+    THEN "BW_json_listing_hangs_mutable_child"
   \* t=json of a prohibited object: a 403, or file-like metadata without any listing ("filenode"), is a refusal to serve it
   ELSE IF x.code = 403 /\ e.t = "json" /\ e.code = 200 /\ e.kind # "dirnode" /\ e.names = <<>> THEN ""
   ELSE IF e.code # x.code THEN "BW_status_" \o ToString(x.code) \o "_got_" \o ToString(e.code)
@@ -38,7 +39,7 @@ ApiVerdict(e, E) ==
   LET x == ApiNode(G, E, e.o) IN
   IF e.proh # x.proh THEN "BW_api_prohibited_node"
   ELSE IF e.isdir # x.isdir THEN "BW_api_directory_interface"
-  ELSE IF e.read # x.read THEN "BW_api_read_" \o x.read \o "_got_" \o e.read
+  ELSE IF e.read # x.read THEN "BW_api_read_" \o x.read
   ELSE IF x.proh /\ e.msg # x.msg THEN "BW_api_reason"
   ELSE ""
 
